@@ -21,6 +21,7 @@ import (
 	"fmt"
 	"sync"
 
+	getty "github.com/apache/dubbo-getty"
 	gxtime "github.com/dubbogo/gost/time"
 	"go.uber.org/atomic"
 
@@ -52,6 +53,11 @@ func GetGettyRemotingClient() *GettyRemotingClient {
 }
 
 func (client *GettyRemotingClient) SendAsyncRequest(msg interface{}) error {
+	return client.sendAsyncRequestOn(nil, msg)
+}
+
+// sendAsyncRequestOn sends the request on the given session; with no session given one is selected
+func (client *GettyRemotingClient) sendAsyncRequestOn(session getty.Session, msg interface{}) error {
 	var msgType message.GettyRequestType
 	if _, ok := msg.(message.HeartBeatMessage); ok {
 		msgType = message.GettyRequestTypeHeartbeatRequest
@@ -65,7 +71,7 @@ func (client *GettyRemotingClient) SendAsyncRequest(msg interface{}) error {
 		Compressor: 0,
 		Body:       msg,
 	}
-	return client.gettyRemoting.SendAsync(rpcMessage, nil, client.asyncCallback)
+	return client.gettyRemoting.SendAsync(rpcMessage, session, client.asyncCallback)
 }
 
 func (client *GettyRemotingClient) SendAsyncResponse(msgID int32, msg interface{}) error {
